@@ -20,6 +20,10 @@ class RateMatrix(MatrixData):
             # check if data are rectangular
             if data.shape[0] != data.shape[1]:
                 raise Exception("Expecting rectangular matrix")
+            # rates are real numbers: a matrix of whole numbers given as
+            # an integer array would truncate the rates assigned later
+            if numpy.issubdtype(data.dtype, numpy.integer):
+                data = numpy.array(data, dtype=numpy.float64)
                 
             if self.N == 0:
                 self.N = data.shape[0]
